@@ -3656,7 +3656,9 @@ def _writer_walks_buffer(tu):
     return True
 
 
-def recfile_write(chk, repo, tu=None):
+def recfile_write(chk, repo, tu=None, binary=None, only_binary=False):
+    """binary=(rule, key, message): also demand contiguous rows on the binary path and report it under that rule (used by C01);
+    only_binary: report nothing else"""
     fi = repo.func("esutil.recfile.Util.Recfile.write")
     m1 = "for text files the data are converted to native order before Records::Write (and only then)"
     m2 = "the in-place conversion is applied to a copy (the effect analysis of C15 decides that the caller's buffer is unreachable)"
@@ -3668,6 +3670,7 @@ def recfile_write(chk, repo, tu=None):
         return
     linear = _writer_walks_buffer(tu)
     v1, v2, v3, notes, notes3 = [], [], [], [], []
+    v4, notes4 = [], []
     px = _PX(repo, stop=_PY_STOP)
     for ret, st in paths:
         _note_implied(px, st)
@@ -3697,6 +3700,13 @@ def recfile_write(chk, repo, tu=None):
                 v1.append(not bad)
                 if bad:
                     notes.append("binary path converts: %s" % [_txt(c) for c in bad])
+            if text is False and binary is not None:
+                cgb = _contiguous(a, st)
+                sure_b = cgb is False and linear and _plain_array(a)
+                v4.append(True if cgb else (False if sure_b else None))
+                if not cgb:
+                    notes4.append("on the binary path Write gets %s, %s" % (_txt(a), "the caller's array as it is or a view of it: a strided table (t[::2]) is "
+                                  "written from the rows of the underlying buffer" if cgb is False else "whose memory layout is not known here"))
             if text is not False:
                 cg = _contiguous(a, st)
                 if cg is None and a.op == "call" and a.args[0] is None:
@@ -3734,6 +3744,11 @@ def recfile_write(chk, repo, tu=None):
                 notes.append("in-place conversion of %s, which is not a fresh copy, on the path %s" % (_txt(x), sorted(st.known.items())))
         for c in raw:
             v2.append(True if (c.name == "newbyteorder" or _fresh(c.args[0])) else None)
+    if binary is not None:
+        chk.ob(binary[0], binary[1], _verdict(v4) if v4 else None, fi.where(), binary[2] + (" (%s)" % "; ".join(notes4[:3]) if notes4 else "")
+               + ("" if linear else " [Records::Write was not recognised as walking the buffer linearly]"))
+    if only_binary:
+        return
     chk.ob("R04.3", k1, _verdict(v1), fi.where(), m1 + (" (%s)" % "; ".join(notes[:3]) if notes else ""))
     chk.ob("R04.3", k2, _verdict(v2), fi.where(), m2 + (" (%s)" % "; ".join(notes[:3]) if notes else ""))
     chk.ob("R04.3", k3, _verdict(v3), fi.where(), m3 + (" (%s)" % "; ".join(notes3[:3]) if notes3 else "")
